@@ -105,7 +105,10 @@ class FileWorld(World):
             self.project = read_sunvox_file(ctx.new_stream(files.materialize(spec), "arg"))
         env.LOG.take()
         self.pattern = next(p for p in self.project.patterns if isinstance(p, Pattern))
-        self.cells = [[[int(n.note), n.vel, n.module, n.ctl, n.val] for n in line] for line in self.pattern.data]
+        # the model is decoded from the byte image by the harness itself, WITHOUT touching pattern.data
+        raw = self.pattern.raw_data
+        lines, tracks = self.pattern.lines, self.pattern.tracks
+        self.cells = [[list(struct.unpack("<BBHHH", raw[(l * tracks + t) * 8 : (l * tracks + t) * 8 + 8])) for t in range(tracks)] for l in range(lines)]
         self.viz = [int(m.visualization) if m is not None else 0 for m in self.project.modules]
         self.midi = [[bool(m.midi_in_always), m.midi_in_channel] if m is not None else [False, 0] for m in self.project.modules]
         self.sync = [int(self.project.receive_sync_midi), int(self.project.receive_sync_other)]
@@ -114,6 +117,11 @@ class FileWorld(World):
 def hold(w):
     """References to the notes, taken once (at setup / after a restart) like a caller would keep them."""
     w.held = [[n for n in line] for line in w.pattern.data]
+
+
+def unhold(w):
+    """Forget the references without looking at the grid (they are taken again when first needed)."""
+    w.held = None
 
 
 def raw_first(w, violations, i, when):
@@ -189,7 +197,7 @@ def execute(case):
             continue
         if k == "setup_file":
             w = FileWorld(FILE_SPECS[op.get("f", 0) % len(FILE_SPECS)])
-            hold(w)
+            unhold(w)
             probes["world_from_file"] = probes.get("world_from_file", 0) + 1
             log.append((i, "setup_file", op.get("f", 0) % len(FILE_SPECS)))
             continue
@@ -201,6 +209,8 @@ def execute(case):
             if k in ("nsub", "nword", "nprim"):
                 l, t = op["l"] % lines, op["t"] % tracks
                 held = bool(op.get("held"))
+                if w.held is None:
+                    hold(w)
                 n = w.held[l][t] if held else w.pattern.data[l][t]
                 if held:
                     probes["write_through_held_reference"] = probes.get("write_through_held_reference", 0) + 1
@@ -285,18 +295,29 @@ def execute(case):
                 raw_first(w, violations, i, "after_" + k)
                 hold(w)
                 check_pattern_raw(w, violations, i)
+            elif k == "clear":
+                # Pattern.clear(): every cell empty - judged on the byte image first, before anything reads the grid
+                w.pattern.clear()
+                w.cells = [[[0, 0, 0, 0, 0] for _ in range(tracks)] for _ in range(lines)]
+                raw_first(w, violations, i, "after_clear")
+                unhold(w)
+                probes["pattern_cleared"] = probes.get("pattern_cleared", 0) + 1
+                for l in range(lines):
+                    for t in range(tracks):
+                        check_note(w, l, t, violations, i, None)
             elif k == "image":
                 r = seeds.rng(op.get("seed", 0), "image")
                 cells = [[[r.choice(NOTE_VALUES), r.randrange(130), r.getrandbits(16), r.getrandbits(16), r.getrandbits(16)] for _ in range(tracks)] for _ in range(lines)]
                 img = b"".join(struct.pack("<BBHHH", *c) for row in cells for c in row)
                 w.pattern.raw_data = img
                 w.cells = cells
-                hold(w)
+                unhold(w)
                 if w.pattern.raw_data != img:
                     violations.append(_v("pattern_image_identity", when="live", detail={"op": i}))
-                for l in range(lines):
-                    for t in range(tracks):
-                        check_note(w, l, t, violations, i, None)
+                if op.get("peek", True):
+                    for l in range(lines):
+                        for t in range(tracks):
+                            check_note(w, l, t, violations, i, None)
                 probes["pattern_image_loaded"] = probes.get("pattern_image_loaded", 0) + 1
             elif k in ("vsub", "vword"):
                 mods = w.project.modules
@@ -378,11 +399,14 @@ def execute(case):
                     violations.append(_v("pattern_image_identity", when="resave", detail={"op": i}))
                 w.project = loaded
                 w.pattern = next(pp for pp in loaded.patterns if isinstance(pp, Pattern))
-                hold(w)
+                unhold(w)
+                if op.get("peek", True):
+                    hold(w)
                 check_pattern_raw(w, violations, i)
-                for l in range(lines):
-                    for t in range(tracks):
-                        check_note(w, l, t, violations, i, "restart")
+                if op.get("peek", True):
+                    for l in range(lines):
+                        for t in range(tracks):
+                            check_note(w, l, t, violations, i, "restart")
                 for mi, m in enumerate(loaded.modules):
                     if m is None:
                         continue
@@ -425,7 +449,7 @@ def generate(seed, i, tier="quick"):
         ops = [{"k": "setup_file", "f": r.randrange(5)}]
     else:
         ops = [{"k": "setup", "lines": r.randrange(8), "tracks": r.randrange(4), "nmods": r.randrange(4)}]
-    kinds = ["nsub"] * 6 + ["nword"] * 2 + ["nprim"] * 2 + ["image", "image", "cellobj", "swap_lines", "reverse_line", "vsub", "vsub", "vsub", "vword", "midi", "midi", "sync", "sync", "save_load"]
+    kinds = ["nsub"] * 6 + ["nword"] * 2 + ["nprim"] * 2 + ["image", "image", "clear", "cellobj", "swap_lines", "reverse_line", "vsub", "vsub", "vsub", "vword", "midi", "midi", "sync", "sync", "save_load"]
     image_pool = [r.getrandbits(30), r.getrandbits(30)]  # images recur within a run (the same bytes assigned again)
     focus_cell = (r.randrange(8), r.randrange(4))
     for _ in range(r.randint(5, 60)):
@@ -436,6 +460,7 @@ def generate(seed, i, tier="quick"):
             op.update(l=l, t=t, f=r.randrange(12), v=r.choice([0, 0xFF, 0xFFFF, 1, 0x80, r.getrandbits(16), r.getrandbits(16)]), held=r.random() < 0.5)
         elif k == "image":
             op["seed"] = r.choice(image_pool) if r.random() < 0.7 else r.getrandbits(30)
+            op["peek"] = r.random() < 0.5
         elif k == "cellobj":
             op.update(l=r.randrange(8), t=r.randrange(4), v=r.getrandbits(63))
         elif k == "swap_lines":
@@ -449,6 +474,9 @@ def generate(seed, i, tier="quick"):
         elif k == "sync":
             op.update(f=r.randrange(2), v=r.getrandbits(10))
         ops.append(op)
+    for op in ops:
+        if op["k"] == "save_load" and r.random() < 0.5:
+            op["peek"] = False  # continue without looking at the loaded grid
     ops.append({"k": "save_load"})
     return {"property": PROPERTY, "world": "words", "ops": ops}
 
